@@ -432,7 +432,9 @@ func (p *path) addRule(
 }
 
 func quote(raw []byte) []byte {
-	if n := len(raw); n > 0 && (raw[0] != '"' || raw[n-1] != '"') {
+	// Text shorter than two bytes cannot be a quoted string: the empty text is
+	// the empty string (StringValue, BytesValue, FieldMask).
+	if n := len(raw); n < 2 || raw[0] != '"' || raw[n-1] != '"' {
 		raw = strconv.AppendQuote(raw[:0], string(raw))
 	}
 	return raw
